@@ -838,7 +838,7 @@ def broadcast_and_apply(  # noqa: C901
                     if mask is None:
                         mask = m
                     else:
-                        nplike.bitwise_or(mask, m, out=mask)
+                        mask = nplike.bitwise_or(mask, m)
 
             nextmask = ak.layout.Index8(mask.view(np.int8))
             index = nplike.full(len(mask), -1, dtype=np.int64)
